@@ -5,7 +5,7 @@
    quantify over all such histories.  Model.v mirrors lib/coroutine.nelua and the C functions
    of lib/detail/minicoro.nelua. *)
 From Coq Require Import List Arith ZArith Bool String.
-From C18 Require Import Gen Model ProofsStorage ProofsInv ProofsErr ProofsTrans ProofsFuel ProofsValues Proofs.
+From C18 Require Import Gen Model ProofsStorage ProofsInv ProofsErr ProofsTrans ProofsFuel ProofsValues ProofsReg Proofs.
 Import ListNotations.
 Local Open Scope list_scope.
 
@@ -126,7 +126,7 @@ Theorem C18_invalid_transitions : forall gc ops, let s := reach gc ops in
   (forall k, get k (cos s) = None -> co_resume k [] s = (CErr MCO_INVALID_COROUTINE, s)) /\
   (forall k, current s = Some k -> co_resume k [] s = (CErr MCO_NOT_SUSPENDED, s)) /\
   (forall vals, current s = None -> co_yield vals s = (CErr MCO_INVALID_COROUTINE, s)) /\
-  (forall k c, gcon s && DESTROY_UNREGISTERS_FIRST = false -> get k (cos s) = Some c ->
+  (forall k c, get k (cos s) = Some c ->
      (co_st c = Running \/ co_st c = Normal) -> co_destroy k s = (CErr MCO_INVALID_OPERATION, s)) /\
   (forall k c v, get k (cos s) = Some c -> 0 < List.length v -> co_cap c < co_stored c + List.length v ->
      co_push k [v] s = (CErr MCO_NOT_ENOUGH_SPACE, s)) /\
@@ -135,31 +135,42 @@ Theorem C18_invalid_transitions : forall gc ops, let s := reach gc ops in
 Proof. exact invalid_transitions. Qed.
 Print Assumptions C18_invalid_transitions.
 
-(* FULL statement [error_unchanged_full]: after any history, any call of the library that
-   returns an error leaves the state unchanged.  It is FALSE for the unchanged code: *)
+(* FULL statement [error_unchanged_full]: after any history, any call of the library that returns an
+   error leaves the state unchanged.  Since the repair of coroutine.destroy (unregister only after a
+   successful minicoro.destroy) destroy is no exception any more, but the statement is STILL false:
+   a resume WITH arguments of a coroutine that is not suspended keeps the arguments pushed (witness),
+   and a coroutine.pop of several values is not rolled back; both orders are documented. *)
 Theorem C18_error_unchanged_refuted : ~ error_unchanged_full.
 Proof. exact error_unchanged_refuted. Qed.
 Print Assumptions C18_error_unchanged_refuted.
 
-(* ... the strongest true restriction: every error leaves the state unchanged except (a) a destroy
-   of an existing coroutine in a GC build (the unregister-before-destroy defect), (b) a resume
-   WITH arguments of an existing non-suspended coroutine (the arguments stay pushed: documented
-   order), (c) a coroutine.pop of several values (not rolled back: documented) *)
+(* ... the strongest true restriction: every error of every call (destroy in GC builds included) leaves
+   the whole state unchanged, except exactly (b) a resume WITH arguments of an existing non-suspended
+   coroutine and (c) a coroutine.pop of two or more values *)
 Theorem C18_error_unchanged_partial : forall gc ops o r s', let s := fst (run ops (init gc)) in
   benign o s -> api o s = Some (CErr r, s') -> s' = s.
 Proof. exact error_unchanged_partial. Qed.
 Print Assumptions C18_error_unchanged_partial.
 
-(* the defect, exactly: the refused destroy of a running/normal coroutine clears its GC
-   registration, and the next destroy of it fails the assertion of GC:unregister *)
-Theorem C18_destroy_active_gc_effect : forall gc ops k c, let s := reach gc ops in
-  gcon s = true -> DESTROY_UNREGISTERS_FIRST = true -> get k (cos s) = Some c -> co_reg c = true ->
-  (co_st c = Running \/ co_st c = Normal) ->
-  co_destroy k s = (CErr MCO_INVALID_OPERATION, set_cos s (put k (set_reg c false) (cos s))) /\
-  co_destroy k (set_cos s (put k (set_reg c false) (cos s))) =
-    (CPanic PANIC_UNREGISTER, set_cos s (put k (set_reg c false) (cos s))).
-Proof. exact destroy_active_gc_effect. Qed.
-Print Assumptions C18_destroy_active_gc_effect.
+(* GC registration (the repaired defect): every coroutine object that still exists is registered in
+   the collector exactly when the program is a GC build *)
+Theorem C18_registered_while_alive : forall gc ops k c, get k (cos (reach gc ops)) = Some c ->
+  co_reg c = gcon (reach gc ops).
+Proof. exact registered_while_alive. Qed.
+Print Assumptions C18_registered_while_alive.
+
+(* coroutine.destroy in every build: refused on a running/normal coroutine with the WHOLE state
+   (GC registration included) unchanged; legal on a suspended/dead one, which is then gone (and no
+   longer registered); nil is an error; the assertion of GC:unregister never fails *)
+Theorem C18_destroy_behaviour : forall gc ops k, let s := reach gc ops in
+  (forall c, get k (cos s) = Some c -> (co_st c = Running \/ co_st c = Normal) ->
+     co_destroy k s = (CErr MCO_INVALID_OPERATION, s)) /\
+  (forall c, get k (cos s) = Some c -> (co_st c = Suspended \/ co_st c = Dead) ->
+     co_destroy k s = (COk, set_cos s (del k (cos s))) /\ get k (del k (cos s)) = None) /\
+  (get k (cos s) = None -> co_destroy k s = (CErr MCO_INVALID_COROUTINE, s)) /\
+  (forall m s', co_destroy k s <> (CPanic m, s')).
+Proof. exact destroy_behaviour. Qed.
+Print Assumptions C18_destroy_behaviour.
 
 Theorem C18_resume_args_effect : forall gc ops k c vals s1, let s := reach gc ops in
   get k (cos s) = Some c -> co_st c <> Suspended -> vals <> [] -> co_push k vals s = (COk, s1) ->
@@ -169,7 +180,7 @@ Print Assumptions C18_resume_args_effect.
 
 (* facts about the constants scraped from the source on this run *)
 Theorem C18_gen_facts :
-  MCO_ZERO_MEMORY = true /\ 0 < STORAGE_SIZE /\
+  DESTROY_UNREGISTERS_FIRST = false /\ MCO_ZERO_MEMORY = true /\ 0 < STORAGE_SIZE /\
   NoDup (map cstate_code all_cstate) /\ NoDup (map mres_code all_mres) /\ NoDup (map describe all_mres) /\
   status_of_state Suspended = "suspended"%string /\ status_of_state Running = "running"%string /\
   status_of_state Normal = "normal"%string /\ status_of_state Dead = "dead"%string /\
